@@ -42,28 +42,31 @@ def sortKey (k : Nat) : Option VId → Nat := fun x => (codeOf x * (k + 1)) % (i
 
 def pumlOpts : Nat → R.POpts
   | 1 => { vopt := fun c => match c with
-             | .V => some ⟨"object", false⟩ | .SV => some ⟨"class", false⟩ | _ => none
+             | .V => some ⟨"object", false, false⟩ | .SV => some ⟨"class", false, false⟩ | _ => none
            lopt := fun c => match c with
              | .D => some ⟨"", ">"⟩ | .U => some ⟨"", ""⟩ | .DD => some ⟨"<", ">"⟩ | _ => none }
-  | 2 => { vopt := fun c => match c with | .V => some ⟨"object", true⟩ | _ => none
+  | 2 => { vopt := fun c => match c with | .V => some ⟨"object", true, false⟩ | _ => none
            lopt := fun c => match c with
              | .D => some ⟨"", ">"⟩ | .U => some ⟨"", ""⟩ | _ => none }
-  | 3 => { vopt := fun c => match c with | .V => some ⟨"object", false⟩ | _ => none
+  | 3 => { vopt := fun c => match c with | .V => some ⟨"object", false, false⟩ | _ => none
            lopt := fun c => match c with
              | .D => some ⟨"", ">"⟩ | .U => some ⟨"", ""⟩ | .X => some ⟨"o", "o"⟩ | _ => none }
   | 4 => { vopt := fun c => match c with
-             | .V => some ⟨"object", false⟩ | .SV => some ⟨"class", true⟩ | _ => none
+             | .V => some ⟨"object", false, false⟩ | .SV => some ⟨"class", true, false⟩ | _ => none
            lopt := fun c => match c with
              | .D => some ⟨"", ">"⟩ | .U => some ⟨"", ""⟩ | _ => none }
   | 5 => { vopt := fun c => match c with
-             | .V => some ⟨"object", false⟩ | .MX => some ⟨"entity", true⟩ | _ => none
+             | .V => some ⟨"object", false, false⟩ | .MX => some ⟨"entity", true, false⟩ | _ => none
            lopt := fun c => match c with
              | .D => some ⟨"", ">"⟩ | .U => some ⟨"", ""⟩ | _ => none }
   | 6 => { vopt := fun c => match c with
-             | .V => some ⟨"object", false⟩ | .SV => some ⟨"class", false⟩ | .MX => some ⟨"entity", true⟩ | _ => none
+             | .V => some ⟨"object", false, false⟩ | .SV => some ⟨"class", false, false⟩ | .MX => some ⟨"entity", true, false⟩ | _ => none
            lopt := fun c => match c with
              | .D => some ⟨"", ">"⟩ | .U => some ⟨"", ""⟩ | _ => none }
-  | _ => { vopt := fun c => match c with | .V => some ⟨"object", false⟩ | _ => none
+  | 7 => { vopt := fun c => match c with | .V => some ⟨"object", true, true⟩ | _ => none
+           lopt := fun c => match c with
+             | .D => some ⟨"", ">"⟩ | .U => some ⟨"", ""⟩ | _ => none }
+  | _ => { vopt := fun c => match c with | .V => some ⟨"object", false, false⟩ | _ => none
            lopt := fun c => match c with
              | .D => some ⟨"", ">"⟩ | .U => some ⟨"", ""⟩ | _ => none }
 
